@@ -26,6 +26,7 @@ U20 = ("u20_roundtrip", {})
 U21 = ("u21_autotraits", {})
 U22 = ("u22_uuid", {})
 U23 = ("u23_same_entry", {})
+U24 = ("u24_text_vs_typed", {})
 U12M = ("u12_text_trace", {"which": "mapper"})
 U12C = ("u12_text_trace", {"which": "cache"})
 U3 = ("u3_interpretation", {})
@@ -139,7 +140,7 @@ PROPS = {
     },
     "C08": {
         "title": "Typed stack-trace remapping keeps every element",
-        "units": [U10M, U10C, U18, U16],
+        "units": [U10M, U10C, U18, U16, U24],
         "kani": [],
         "technique": "Verus contract on the whole recursive remap_stacktrace_typed (both copies): exception kept, remapped-or-same, cause depth preserved, frames == the concatenation of every frame's remapped frames (or the frame itself), via a generic fold shim whose steps go through the closure's contract, the closure body verified as a region and called in place",
         "level_text": "Proof (with recursion, decreases on cause depth) that typed remapping never drops the exception of a trace or of any cause, that each throwable is the remapped one or the original, "
@@ -415,3 +416,16 @@ PROPS["C04"]["assumed"] = [x for x in PROPS["C04"].get("assumed", []) if not x.s
     "'last class line wins': proved for the abstract fold (u23: under an obfuscated name, built(records) holds the class of the LAST block with that name, with that block's original name) and the builders are proved equal to the fold "
     "(u13, u14); HashMap::insert / BTreeMap::insert overwrite (their contracts) inside the builders are assumed"]
 PROPS["C13"]["assumed"] = [x.replace("StackTrace::cause (Option::as_deref), ", "") for x in PROPS["C13"].get("assumed", [])]
+
+# ---- C08: the whole-trace relation (u10) and the structural agreement of the text API with the printed typed result (u24) ----
+PROPS["C08"]["level_text"] = PROPS["C08"]["level_text"].replace(
+    "Agreement of the printed typed result with the text API output is not decided.",
+    "The postcondition is RECURSIVE: typed_rel(self, trace, ret) relates result and input level by level down the cause chain (exception present iff it was, remapped or kept; frames == remapped_frames; a cause iff there was one, "
+    "related in the same way) -- the earlier contract only pinned the depth of the result's cause chain, and a change that left the frames of a cause un-remapped verified (found with a hand-made mutant, now committed). "
+    "LAST SENTENCE (u24, pure lemma over the definitions cut out of u12 / u10 / u19): if the input lines are a trace t in canonical printed form (shape(t, lines) and every line IS what Display prints for its part), then "
+    "out_upto(m, lines, #lines) -- what remap_stacktrace is proved to return (u12) -- equals ptext(typed(m, t)): the exception line, one four-space-indented line per frame of remapped_frames, `Caused by: ` + the cause, of the typed "
+    "result. Hypotheses: a top level without exception starts with a frame line that does not read as a throwable, and is not `cause only`. By name, not by proof: Display over chars (u12) vs bytes (u16), ptext vs trace_text, "
+    "typed vs typed_rel, and that str::lines yields these lines.")
+PROPS["C08"]["assumed"] = [x for x in PROPS["C08"]["assumed"] if not x.startswith("'printing the typed result")] + [
+    "u24: `sp_after_prefix(line, lit)` of u12 is `sp_strip(line, lit)` followed by `sp_throwable` (what the body of u12's shim spells out); the char-level `ptext` mirrors u16's byte-level `trace_text`; `lines_of(printed text)` being the printed lines is a hypothesis (`canon` / `shape`)"]
+PROPS["C08"]["technique"] = PROPS["C08"]["technique"] + "; the postcondition is the recursive relation typed_rel; pure lemma (u24): text API output on a canonically printed trace == printed typed result"
